@@ -524,3 +524,7 @@ PROPS["C08"]["streams"] = PROPS["C08"]["streams"] + [G_MIXED]
 # ------------------------------------------------------------------ C03: plans revised while a placement is being retried
 PROPS["C03"]["streams"] = PROPS["C03"]["streams"] + [CH_REPLAN, CH_REPLAN]
 PROPS["C03"]["runs"] = {"quick": 2000, "thorough": 60000}
+
+# ------------------------------------------------------------------ C10: keep the planners' share up (dilution check: C10b had slipped)
+PROPS["C10"]["streams"] = PROPS["C10"]["streams"] + [PLAN_ILP, PLAN_ENF]
+PROPS["C10"]["runs"] = {"quick": 1500, "thorough": 40000}
